@@ -34,6 +34,7 @@ def run(ctx):
     rule_check_before_write(ctx)
     rule_single_writer(ctx)
     rule_filename(ctx)
+    rule_id_directory_syntax(ctx)
     rule_newest(ctx)
     rule_all_versions_kept(ctx)
     rule_save_load(ctx)
@@ -181,6 +182,42 @@ def rule_filename(ctx):
     run.check(oks, R, key(rel, tf.qualname, "only-separators-stripped"), "the file name drops digits of the timestamp (distinct "
               "versions could share a name)", file=rel, line=tf.node.lineno, function=tf.qualname,
               expected="re.sub('[-T:.Z ]', '', ts)", found=[short(c) for c in subs])
+
+
+def rule_id_directory_syntax(ctx):
+    """A versioned type directory is recognised by an entry named like an id of that type.  The recognising regex must
+    admit EVERY identifier the sink can have written (any 8-4-4-4-12 hexadecimal UUID: 2.1 ids are not all version 4,
+    deterministic SCO ids are version 5), or a directory holding only such ids is read as unversioned and get /
+    all_versions / query return nothing for objects that were stored."""
+    from .. import regexast, regexnfa
+    from ..tableeval import Evaluator, Regex, to_json
+    run = ctx.run
+    prog = ctx.prog
+    R = "C11.id-directory-syntax"
+    fi = prog.func(FS + "::_is_versioned_type_dir")
+    rel = fi.module.relpath
+    comp = [a for a in body_walk(fi.node) if isinstance(a, ast.Assign) and isinstance(a.value, ast.Call)
+            and dotted(a.value.func) == "re.compile"]
+    if len(comp) != 1:
+        raise AnalysisError("_is_versioned_type_dir: the id regex was not found")
+    rxname = norm(comp[0].targets[0])
+    uses = [c for c in body_walk(fi.node) if isinstance(c, ast.Call) and isinstance(c.func, ast.Attribute)
+            and c.func.attr in ("match", "fullmatch", "search") and norm(c.func.value) == rxname]
+    if len(uses) != 1:
+        raise AnalysisError("_is_versioned_type_dir: the use of the id regex was not found")
+    tname = fi.params[1]
+    ev = Evaluator(prog, allow_dyn=True)
+    rx = ev.eval(comp[0].value, fi.scope, env={tname: "tttt"})
+    if not isinstance(rx, Regex) or not isinstance(rx.pattern, str):
+        raise AnalysisError("_is_versioned_type_dir: the id regex is not statically evaluable")
+    flags = regexast.flag_value(to_json(rx.flags) if not isinstance(rx.flags, int) else rx.flags)
+    ref = "tttt--[0-9a-fA-F]{8}-[0-9a-fA-F]{4}-[0-9a-fA-F]{4}-[0-9a-fA-F]{4}-[0-9a-fA-F]{12}"
+    w = regexnfa.pattern_included(ref, rx.pattern, 0, flags, "fullmatch", uses[0].func.attr)
+    run.check(w is None, R, key(rel, fi.qualname, "admits-every-stored-id"),
+              "the regex that recognises id-named directories refuses an identifier the sink can have written: a type directory "
+              "whose ids are all of that form is treated as unversioned and its objects are not found", file=rel,
+              line=comp[0].lineno, function=fi.qualname, expected="L(<type>--<any 8-4-4-4-12 hex UUID>) subset of L(id regex)",
+              found="pattern %r refuses %r" % (rx.pattern, w))
 
 
 def rule_newest(ctx):
